@@ -56,9 +56,9 @@ Definition fh_misc : list fstep :=
 
 (* the fault modes; they are in force while a counted fault is armed, so a call that
    is to see only the mode carries a count no call reaches *)
-Definition fx_deletes : fxmode := {| fx_del := true; fx_list := false; fx_leave := false |}.
-Definition fx_listing : fxmode := {| fx_del := false; fx_list := true; fx_leave := false |}.
-Definition fx_leaves : fxmode := {| fx_del := false; fx_list := false; fx_leave := true |}.
+Definition fx_deletes : fxmode := {| fx_del := true; fx_list := false; fx_leave := false; fx_land := false |}.
+Definition fx_listing : fxmode := {| fx_del := false; fx_list := true; fx_leave := false; fx_land := false |}.
+Definition fx_leaves : fxmode := {| fx_del := false; fx_list := false; fx_leave := true; fx_land := false |}.
 Definition never : option nat := Some 200%nat.
 
 (* F: every deletion of a head truncation fails: the truncation is applied, the files
